@@ -28,9 +28,12 @@ OPS = ["ping", "repo-list", "tag-list", "tag-list-paged", "manifest-get", "manif
        "manifest-delete-ref-fb", "tag-delete", "tag-delete-fb", "blob-get", "blob-head", "blob-delete",
        "blob-mount", "blob-put", "blob-put-chunked", "blob-put-stream", "blob-put-oneshot",
        "manifest-head-nodigest", "manifest-head-digest", "blob-put-chunked-minlen", "blob-put-chunked-sha512",
-       "blob-mount-refused", "blob-get-seek", "referrer-list", "referrer-list-paged",
+       "blob-mount-refused", "blob-get-seek",
+       # round 4: sequences of operations on one client (idle gap / none), one or two registries
+       "seq-manifest-get", "seq-blob-get-head", "seq-tag-list-head-nogap", "seq2-manifest-get", "seq2-blob-head-tag-list", "referrer-list", "referrer-list-paged",
        "referrer-list-fb"]
-READ_OPS = {"manifest-head-nodigest", "manifest-head-digest", "blob-get-seek", "tag-list", "tag-list-paged", "manifest-get", "manifest-get-digest", "manifest-head", "blob-get",
+READ_OPS = {"seq-manifest-get", "seq-blob-get-head", "seq-tag-list-head-nogap", "seq2-manifest-get",
+            "seq2-blob-head-tag-list", "manifest-head-nodigest", "manifest-head-digest", "blob-get-seek", "tag-list", "tag-list-paged", "manifest-get", "manifest-get-digest", "manifest-head", "blob-get",
             "blob-head", "referrer-list", "referrer-list-paged", "referrer-list-fb"}
 
 
@@ -124,6 +127,21 @@ def l1_order_scenarios():
     out.append({"id": "ra-window-order", "conf": conf(["m1", "up"], [0, 0]),
                 "steps": [{"ev": "do", "id": "B"}, {"ev": "att", "raw": "s429ra"}, {"ev": "note", "what": "close", "id": "B"},
                           {"ev": "do", "id": "C"}, {"ev": "read", "id": "C"}, {"ev": "note", "what": "close", "id": "C"}]})
+    # a sequence on one client: an earlier request leaves a failure history on the host (it succeeded after its
+    # retry), the client is idle for longer than any delay (or not at all), a later request meets faults again:
+    # its retries are backed off from like the first ones (seeded change C12-7)
+    for hosts in (["up"], ["m1", "up"]):
+        for gap in ("idle", "none"):
+            for k1, k2 in (("s500", "s500"), ("reset", "s502"), ("short0", "s504"), ("s429", "s408")):
+                steps = [{"ev": "do", "id": "A"}, {"ev": "att", "raw": k1}, {"ev": "read", "id": "A"},
+                         {"ev": "note", "what": "close", "id": "A"}]
+                if gap == "idle":
+                    steps.append({"ev": "note", "what": "idle"})
+                steps += [{"ev": "do", "id": "B"}, {"ev": "att", "raw": k2}, {"ev": "att", "raw": k2},
+                          {"ev": "read", "id": "B"}, {"ev": "note", "what": "close", "id": "B"}]
+                c = conf(hosts, [0] * len(hosts), R=5)
+                c["dmax_real"] = {"s500": 4, "reset": 1, "short0": 30, "s429": 2}[k1]
+                out.append({"id": "seq-%s-%dh-%s-%s" % (gap, len(hosts), k1, k2), "conf": c, "steps": steps})
     # three hosts, one mirror inside its Retry-After window: it goes last, the idle registry is asked before it
     # (seeded change C12-3: the back-off part of the comparator looks at the wrong host after the first swap)
     for hosts in (["m1", "m2", "up"], ["m2", "m1", "up"]):
@@ -159,7 +177,7 @@ def l1_dimensions(rng, scns):
     of Seek, double Close.  Random assignment per scenario (each value of each dimension occurs hundreds of times
     per run, every pair of values many times); a third of the scenarios keeps the first-round setting."""
     for s in scns:
-        if str(s["id"]).startswith(("order-", "ra-", "oneshot-")) or rng.random() < 0.33:
+        if str(s["id"]).startswith(("order-", "ra-", "oneshot-", "seq-")) or rng.random() < 0.33:
             continue
         c = s["conf"]
         if c.get("tail") != "s429ra" and "di_us" not in c:
@@ -287,7 +305,8 @@ def l2_apply(base, row):
 
 
 def l2_key(s):
-    return json.dumps([s["op"], s["R"], s["upprio"], s["mirrors"], s.get("conc", 0), s.get("row", "000000")], sort_keys=True)
+    return json.dumps([s["op"], s["R"], s["upprio"], s["mirrors"], s.get("conc", 0), s.get("row", "000000"),
+                       s.get("defmirrors", False), s.get("dmax", 0)], sort_keys=True)
 
 
 def l2_class(t, r):
@@ -346,6 +365,19 @@ def l2_fixed(base, info):
         for conc in (1, 2, 3):
             for kind in ("500", "reset"):
                 out.append(dict(b, R=5, conc=conc, persist={"class": "upload_put", "kind": kind, "from": 1}))
+    # round 4: history left by an earlier operation + idle gap (seeded C12-7); mirrors from the default host and a
+    # second registry (seeded C12-8), each with its neighbours (no gap, per-registry mirrors, other order)
+    for op, p2 in (("seq-manifest-get", 3), ("seq-blob-get-head", 3), ("seq-tag-list-head-nogap", 3)):
+        b, b0 = find(op, 3, 0)
+        for k1, k2 in (("500", "500"), ("reset", "502"), ("504", "429")):
+            out.append(dict(b, faults=[{"pos": 1, "kind": k1}, {"pos": p2, "kind": k2}]))
+        out.append(dict(b, dmax=1, faults=[{"pos": 1, "kind": "500"}, {"pos": p2, "kind": "500"}]))
+    for op in ("seq2-manifest-get", "seq2-blob-head-tag-list", "seq-manifest-get"):
+        for nm in (1, 2):
+            b, b0 = find(op, 3, nm)
+            out.append(dict(b, defmirrors=True))
+            out.append(dict(b, defmirrors=True, faults=[{"pos": 1, "kind": "404"}]))
+            out.append(dict(b))
     b, b0 = find("referrer-list", 3, 0)                                         # referrers probe
     if b:
         out.append(dict(b, faults=[{"pos": 1, "kind": "502"}]))
@@ -365,8 +397,15 @@ def run_l2(ctx, rng, cov):
                 Rs = rng.sample([2, 3], 2)
                 variants = [(Rs[0], "000000"), (Rs[1], rng.choice(L2_ROWS[1:]))]
             for R, row in variants:
-                base.append(dict(l2_apply(dict(b0, R=R), row), id="probe-%d" % len(base),
-                                 di_us=rng.choice([1000, 2000, 2000, 5000]) if row != "000000" else 2000))
+                b = dict(l2_apply(dict(b0, R=R), row), id="probe-%d" % len(base),
+                         di_us=rng.choice([1000, 2000, 2000, 5000]) if row != "000000" else 2000)
+                if row != "000000":
+                    # round 4: delayMax (in units of delayInit), and where the mirror list comes from: the entry of the
+                    # registry or the default host (then no host has an entry, so no priorities / prefixes of its own)
+                    b["dmax"] = rng.choice([1, 2, 4, 30])
+                    if mirrors and upprio == 0 and all(m["prio"] == 0 and not m["prefix"] for m in b["mirrors"]):
+                        b["defmirrors"] = rng.random() < 0.5
+                base.append(b)
     probes = drive(ctx, "l2probe", base, "l2probe", par=24)
     info = {}
     for s, t in zip(base, probes):
@@ -457,6 +496,9 @@ def model_check(ctx, cov):
             ("RegHttpMC", "C12_mc_leak.cfg", "2 throttle slots, as the code (slot returned before re-entry): never stuck", None),
             ("RegHttpMC", "C12_mc_leak_old.cfg", "switch FixLeak=FALSE, the code before eb4e31c (expected: stuck in Acquire; "
              "explains seeded/fixrev-C12-4)", "NoThrottleBlock"),
+            ("RegHttpMC", "C12_mc_idle.cfg", "2 requests in sequence with idle gaps on 1 host: history of the earlier one", None),
+            ("RegHttpMC", "C12_mc_idle_old.cfg", "switch StoreAnchor=FALSE, the seeded change C12-7 (expected: retry without "
+             "back-off after an idle gap)", "Ok"),
             ("RegHttpMC", "C12_mc_nr.cfg", "one-shot bodies (not-retryable abort of next()), 2 requests, 2 slots: every "
              "exit returns its slot", None),
             ("RegHttpMC", "C12_mc_nr_old.cfg", "switch RelNR=FALSE, the seeded change C17-4 (expected: slot not returned)",
@@ -468,6 +510,7 @@ def model_check(ctx, cov):
         runs += [("RegHttpMC", "C12_mc_waive.cfg", "all priority assignments, S1 pattern waived", None),
                  ("RegHttpMC", "C12_mc_doc.cfg", "all priority assignments, documented order: (P) holds unwaived", None),
                  ("RegHttpMC", "C12_mc_nr_t.cfg", "one-shot bodies, R 2-3, 6 kinds", None),
+                 ("RegHttpMC", "C12_mc_idle_t.cfg", "sequences with idle gaps, 2 hosts, 7 kinds", None),
                  ("RegHttpMC", "C12_live_t.cfg", "every call returns (liveness), R 1-2", None),
                  ("RegHttpMC", "C12_mc_t3.cfg", "3 hosts, R 1-3", None),
                  ("RegHttpMC", "C12_mc_t2ids.cfg", "2 overlapping requests", None)]
